@@ -1411,6 +1411,26 @@ def _re_sub(interp, args, kwargs):
     return tokstr.re_sub(interp, args, kwargs)
 
 
+class SymRange:
+    """range(a, b) with symbolic bounds (step 1): only membership tests are supported"""
+
+    def __init__(self, lo, hi):
+        self.lo, self.hi = lo, hi
+
+
+def _range(interp, args, kwargs):
+    if not any(type(a) is Sym for a in args):
+        try:
+            return range(*args)
+        except (TypeError, ValueError) as e:
+            raise PyExc(type(e), e.args)
+    if len(args) == 1:
+        return SymRange(0, args[0])
+    if len(args) == 2:
+        return SymRange(args[0], args[1])
+    raise Unsupported("range() with a step and symbolic bounds")
+
+
 def _open(interp, args, kwargs):
     from . import pbmodel
 
@@ -1451,6 +1471,7 @@ def build_models():
         _dc.fields: _dc_fields,
         object.__setattr__: _object_setattr,
         builtins.open: _open,
+        builtins.range: _range,
         builtins.isinstance: _isinstance,
         builtins.type: _type,
         builtins.len: _len,
